@@ -234,8 +234,7 @@ def stepLine (d : DState) (op obs : String) : DState × String :=
     match (if h == "-" then some [] else LA.parseHex h) with
     | none => (d, "bad-op")
     | some body =>
-      -- the harness reads from memory: the whole body is buffered
-      match LA.Pax.parseRecords body.length body body.length with
+      match LA.Pax.parseRecords body.length body with
       | none => (d, "st=warn")          -- "Ignoring malformed pax attributes"
       | some kvs =>
         -- SCHILY.xattr.<name> (1..128 bytes) becomes an extended attribute; other keys are unknown to the reader
